@@ -103,13 +103,13 @@ def roundtrip(t, case, setting, labels, backward_first=False):
 
 def make_oracle(cls):
     def oracle(case):
-        labels = [f"via:{case['via']}"]
+        labels = [f"via:{case['via']}", f"set:{case.get('how', 'by-name')}"]
         t = tc.make(case)
         nt = False
         nskip = 0
         for k, setting in enumerate(case["settings"]):
             if k > 0:
-                tc.apply(t, setting["p"])
+                tc.apply(t, setting["p"], case.get("how", "by-name"))
             # the values read back are the values set (inside the bounds)
             for name, v in setting["p"].items():
                 if float(t[name]) != v:
